@@ -348,19 +348,90 @@ class SimFS:
 # module proxies
 # ---------------------------------------------------------------------------
 
+class StubGap(BaseException):
+    """the code under test used something the simulated OS does not provide: a gap of the
+    harness, never a verdict (BaseException, so that no `except Exception` swallows it)"""
+
+
+class SimStat:
+    def __init__(self, inode):
+        import stat as st
+        self.st_size = len(inode.data) if inode.kind == "file" else 0
+        self.st_mode = {"dir": st.S_IFDIR | 0o755, "file": st.S_IFREG | 0o644}.get(
+            inode.kind, st.S_IFREG | 0o600)
+        self.st_ino = id(inode) & 0xffffffff
+        self.st_nlink = 1
+
+
+class SimPath:
+    """os.path: the pure functions are the real ones, the ones that look at the file
+    system look at the simulated one"""
+
+    def __init__(self, fs):
+        self._fs = fs
+
+    def __getattr__(self, name):
+        if name in ("join", "basename", "dirname", "split", "splitext", "normpath", "sep",
+                    "isabs", "commonprefix", "commonpath", "relpath"):
+            return getattr(real_os.path, name)
+        raise StubGap(f"os.path.{name} is not simulated")
+
+    def _node(self, path):
+        try:
+            return self._fs._lookup(path)
+        except OSError:
+            return None
+
+    def exists(self, path):
+        self._fs.yield_point("fs/stat")
+        return self._node(path) is not None
+
+    lexists = exists
+
+    def isdir(self, path):
+        self._fs.yield_point("fs/stat")
+        n = self._node(path)
+        return n is not None and n.kind == "dir"
+
+    def isfile(self, path):
+        self._fs.yield_point("fs/stat")
+        n = self._node(path)
+        return n is not None and n.kind == "file"
+
+    def getsize(self, path):
+        self._fs.yield_point("fs/stat")
+        return len(self._fs._lookup(path).data)
+
+
 class OsProxy:
     """stands in for the `os` module inside ebpfcat.lock / ebpfcat.ebpfcat"""
 
     def __init__(self, fs, sched=None):
         self._fs = fs
         self._sched = sched
-        self.path = real_os.path
+        self.path = SimPath(fs)
         self.SCHED_RR = getattr(real_os, "SCHED_RR", 2)
 
     def __getattr__(self, name):      # constants and harmless helpers
         if name.startswith("O_") or name in ("strerror", "fspath", "sep", "environ", "cpu_count"):
             return getattr(real_os, name)
-        raise AttributeError(f"os.{name} is not simulated")
+        raise StubGap(f"os.{name} is not simulated")
+
+    def fstat(self, fd):
+        self._fs.yield_point("fs/fstat")
+        return SimStat(self._fs._of(fd).inode)
+
+    def stat(self, path):
+        self._fs.yield_point("fs/stat")
+        return SimStat(self._fs._lookup(path))
+
+    def fsync(self, fd):
+        self._fs._of(fd)
+
+    def lseek(self, fd, pos, how):
+        of = self._fs._of(fd)
+        of.pos = pos if how == 0 else of.pos + pos if how == 1 else len(of.inode.data) + pos
+        return of.pos
 
     def open(self, path, flags, mode=0o666):
         return self._fs.open(path, flags, mode)
